@@ -163,6 +163,9 @@ func checkDirAsMap(c *mon.Case, prop string, node ipld.Node, model map[string]ci
 		}
 	}
 	probe("")
+	for _, p := range []string{"Links", "Data", "Hash", "Name", "Tsize", "0", "1"} {
+		probe(p)
+	}
 	for _, p := range extraProbes {
 		probe(p)
 	}
